@@ -1,10 +1,10 @@
 INIT Init
 NEXT Next
 CHECK_DEADLOCK FALSE
-CONSTANT UpperSet <- T3
+CONSTANT UpperSet <- UpperThorough
 CONSTANT LamSet <- LamAll
 CONSTANT PolarQuats <- PolarQuatsAll
-CONSTANT StretchSet <- StretchAll
+CONSTANT StretchSet <- StretchThorough
 INVARIANT SimilarityLemma
 INVARIANT InvariantsLemma
 INVARIANT CayleyHamilton
